@@ -68,6 +68,7 @@ type c20Opts struct {
 	Signers   int    // 1 or 2 layout keys
 	Noisy     int    // behaviour of step commands: 0 quiet, 1 multi-line stdout, 2 stderr only
 	InterCLI  bool   // the certificate is issued by an intermediate CA that only `verify -i` supplies
+	Rerun     bool   // the last step is first carried out with a very noisy command, then again for real (same link path, shorter file)
 }
 
 func (o c20Opts) String() string {
@@ -152,6 +153,7 @@ func runC20(c *core.Ctx) {
 			o.Record = append(o.Record, r.Intn(3) == 0)
 		}
 		o.InterCLI = o.Cert && r.Intn(2) == 0
+		o.Rerun = r.Intn(3) == 0
 		id := fmt.Sprintf("chain/%d", i)
 		if !c.Want(id) && !strings.HasPrefix(c.Only, id) && c.Only != "" {
 			continue
@@ -239,6 +241,14 @@ func runC20(c *core.Ctx) {
 			}
 			record := o.Record[s]
 			noCmd := s == 0 && o.NoCommand && !record
+			if o.Rerun && s == o.Steps-1 && !record && !noCmd {
+				// first attempt of the step: same name and key, a command that only prints a lot
+				noisy := append(append([]string{"run"}, common...), "-m", "proj", "-p", "proj", "--", helper, "fsop", "multi", "say", strings.Repeat("a first attempt that printed a lot of output\n", 200))
+				if inv := cl.run(w.work, noisy...); inv.Exit != 0 {
+					fail = fmt.Sprintf("step %s (first attempt): in-toto run exited %d: %s", name, inv.Exit, inv.Stderr)
+					break
+				}
+			}
 			var inv invocation
 			switch {
 			case record:
@@ -597,7 +607,7 @@ func init() {
 	core.Register(&core.Property{
 		ID:    "C20",
 		Level: "exploration",
-		Rule: "seeded supply chains of 1-3 steps carried out ONLY through the built `in-toto` binary: per step `run` or `record start` / (changes by hand) / `record stop`, options drawn from {--use-dsse, -c certificate with the CA in the layout (the certificate issued directly or by an intermediate CA that only `verify -i` supplies), -l strip prefix, -d metadata directory, --run-dir, -x, -e exclude}, step commands that are quiet / print several lines / write to stderr only; layout written by the harness and signed with `in-toto sign` by 1-2 keys; link names checked against the verifier's naming; then `verify` on the honest chain and after each of 11 single tamperings (product byte, extra file, link content, link signature, link missing, link renamed, layout content, layout signed by an outsider, wrong -k, extra -k of a non-signer, expired layout), each time compared with library verification of a byte-identical copy; `sign --verify` with signer / outsider keys, `key id` on a key and on a non-key, `match-products` on untouched and locally changed products compared with InTotoMatchProducts. " +
+		Rule: "seeded supply chains of 1-3 steps carried out ONLY through the built `in-toto` binary: per step `run` or `record start` / (changes by hand) / `record stop`, options drawn from {--use-dsse, -c certificate with the CA in the layout (the certificate issued directly or by an intermediate CA that only `verify -i` supplies), -l strip prefix, -d metadata directory, --run-dir, -x, -e exclude}, step commands that are quiet / print several lines / write to stderr only; in a third of the chains the last step is carried out twice (a noisy first attempt, then the real one, both writing the same link path); layout written by the harness and signed with `in-toto sign` by 1-2 keys; link names checked against the verifier's naming; then `verify` on the honest chain and after each of 11 single tamperings (product byte, extra file, link content, link signature, link missing, link renamed, layout content, layout signed by an outsider, wrong -k, extra -k of a non-signer, expired layout), each time compared with library verification of a byte-identical copy; `sign --verify` with signer / outsider keys, `key id` on a key and on a non-key, `match-products` on untouched and locally changed products compared with InTotoMatchProducts. " +
 			"non-trivial = the chain reached `verify`; distinct = (option set, tampering)",
 		Assumptions: []string{"the inspection of the generated layout runs in the directory `verify` is started in (a separate final-product directory)", "open known finding F6 also shows here: --use-dsse together with -c"},
 		Workers:     func(string) int { return 16 },
